@@ -60,6 +60,9 @@ int f(void) { return 1 +
 #line 4294967296
 int x;
 static int x = 1; int x = 2;
+_Thread_local int x; int x = 2;
+static _Thread_local int x; int x = 2; int x;
+_Thread_local int x; _Thread_local int x = 1;
 int x = 1; static int x = 2;
 static int x; int x = 2; int x;
 extern int x; static int x = 3;
